@@ -1,5 +1,5 @@
 """Scripted step command: applies file operations to the current directory.
-argv: ops like create:path:text  modify:path:text  delete:path  rename:a:b  mkdir:path  echo:text  exit:n"""
+argv: ops like create:path:text  modify:path:text  delete:path  rename:a:b  mkdir:path  cd:dir  echo:text  exit:n"""
 import os
 import sys
 
@@ -18,6 +18,8 @@ for op in sys.argv[1:]:
     elif kind == "rename":
         a, _, b = rest.partition(":")
         os.rename(a, b)
+    elif kind == "cd":
+        os.chdir(rest)
     elif kind == "mkdir":
         os.makedirs(rest, exist_ok=True)
     elif kind == "echo":
